@@ -49,6 +49,13 @@ def configs(tier, family):
                                 "count": rng.choice([4, 10, 25]) if tier == "quick" else rng.choice([10, 40, 120]),
                                 "payload": rng.choice(["small", "big"]), "delay": rng.choice([0, 0, 150]),
                                 "initiator": ini, "busy": busy, "seed": vlib.seed() * 100 + rep})
+    if family == "C06":
+        # the window between the established check of a send and its turn at the mutex: many senders, short
+        # envelopes, the session ended by the server in the middle of it, the server's wire tapped (tcp, tls)
+        for rep in range(6 if tier == "quick" else 40):
+            for tr in ("tcp", "tls"):
+                out.append({"transport": tr, "buffer": 8, "senders": 4, "count": 200, "payload": "small", "delay": 0,
+                            "initiator": rng.choice(["sfinish", "sfail"]), "busy": True, "seed": vlib.seed() * 100 + 70 + rep})
     if family == "C13":
         # the terminating server's own consumer is stuck in a handler while the peer keeps sending that kind:
         # its receiver sits in the hand-over to a full stream when the end is requested
